@@ -182,16 +182,19 @@ class AUCE(Entry):
         return Fn.auc(a[0], a[1], reorder=cfg["reorder"])
 
 
-class CovarianceE(Entry):
+class CovarianceE(DynTol):
     name, cls, model = "Covariance", M.Covariance, "reg_cov"
-    tol = TOL64
+    TOL_OFFSET = Fraction(1, 2 ** 16)   # ill-conditioned stream: |mean| = 2^30 >> spread; demean-first keeps ~1e-7 relative
     family = "moments"
     has_functional = False
     min_compute = 2
     alias_on_merge = True        # adopts the first shard's state: probed for tensor sharing (was D2)
 
     def configs(self, rng, quick=True):
-        return [{"_d": d} for d in (2, 1, 3)]
+        return [{"_d": 2, "_off": 0}, {"_d": 2, "_off": 30}, {"_d": 1, "_off": 0}, {"_d": 3, "_off": 30}, {"_d": 3, "_off": 0}, {"_d": 1, "_off": 30}]
+
+    def class_tol(self, cfg):
+        return self.TOL_OFFSET if cfg.get("_off") else TOL64
 
     def kwargs(self, cfg):
         return {}
@@ -199,10 +202,15 @@ class CovarianceE(Entry):
     def cfg_val(self, cfg):
         return cfg["_d"]
 
+    def directed_batches(self, rng, cfg):
+        return [self.gen_batch(rng, cfg, 4), self.gen_batch(rng, cfg, 3)]
+
     def gen_batch(self, rng, cfg, n):
         n = max(1, n)
         d = cfg["_d"]
         rows = [grid(rng, d, 4, -12, 12) for _ in range(n)]
+        if cfg.get("_off"):                         # ill-conditioned: values 2^k + j/8 (exact in float64)
+            rows = [[2 ** cfg["_off"] + Fraction(rng.randint(-24, 24), 8) for _ in range(d)] for _ in range(n)]
         if rng.random() < 0.2:                      # repeated rows / constant column
             rows = [list(rows[0]) for _ in range(n)]
         elif rng.random() < 0.2:
